@@ -54,6 +54,10 @@ func main() {
 		fmt.Fprintf(os.Stderr, "unknown property %s\n", prop)
 		os.Exit(2)
 	}
+	if *out != "" {
+		currentOpFile = *out + ".current"
+		defer os.Remove(currentOpFile)
+	}
 	start := time.Now()
 	res := &Result{Property: prop, Tier: *tier, Seed: *seed, Rule: p.Rule,
 		Classes: map[string]int{}, Outcomes: map[string]int{}, Branches: map[string]int{},
